@@ -1,4 +1,5 @@
 import Tibc.Genesis.Model
+import Tibc.Lemmas.HostKeys
 import Tibc.Lemmas.Keeper
 /-
   C16 — Genesis export and re-import preserve all protocol state.
@@ -128,5 +129,21 @@ theorem processedKey_not_cons (chain : Bytes) (rev h : Nat) (hc : ∀ b ∈ chai
 example : parseConsKeyBySplit (consKey (strBytes "chainA") 0 47) = none := by decide
 example : parseConsKeyBySplit (consKey (strBytes "chainA") 0 46) = some (strBytes "chainA", 0, 46) := by decide
 example : parseConsKey (consKey (strBytes "chainA") 0 47) = some (strBytes "chainA", 0, 47) := by decide
+
+/-- **Export reads every sequence-indexed key back as what was written.** The genesis exporters
+    walk the commitment / receipt / acknowledgement families with `iterateHashes`, which recovers
+    `(source, destination, sequence)` from the key: for chain names without `/` and 64-bit
+    sequences the recovered triple is exactly the one the key was built from. -/
+theorem export_reads_seq_keys (src dst : Str) (n : Nat) (hs : '/' ∉ src) (hd : '/' ∉ dst) (hn : n < 2 ^ 64) :
+    Host.parseSeqPath (Host.packetCommitmentPath src dst n) = some (src, dst, n) ∧
+    Host.parseSeqPath (Host.packetReceiptPath src dst n) = some (src, dst, n) ∧
+    Host.parseSeqPath (Host.packetAcknowledgementPath src dst n) = some (src, dst, n) :=
+  ⟨Host.parseSeqPath_seqPath _ _ _ _ (by decide) hs hd hn, Host.parseSeqPath_seqPath _ _ _ _ (by decide) hs hd hn,
+   Host.parseSeqPath_seqPath _ _ _ _ (by decide) hs hd hn⟩
+
+/-- … and the per-pair counters (`IteratePacketSequence` / `ParseChannelPath`). -/
+theorem export_reads_pair_keys (src dst : Str) (hs : '/' ∉ src) (hd : '/' ∉ dst) :
+    Host.parseChannelPath (Host.nextSequenceSendPath src dst) = some (src, dst) :=
+  Host.parseChannelPath_pairPath _ _ _ (by decide) hs hd
 
 end Tibc.C16
